@@ -139,7 +139,7 @@ def hCsv : Handler := fun r =>
       | .kf =>
         "-"   -- no open finding (KF-C19-1…6 fixed in /repo)
       | .prop => propCsv opts files r.impl
-      | .spec => "n/a"
+      | .spec => "scope=" ++ csvScopeWhy opts files   -- evidence only (family csv is not run with spec=True): which conjunct of the scope fails
     | _, _ => if r.mode == .model then "bad-op" else if r.mode == .kf then "-" else "n/a"
   | [] => if r.mode == .model then "bad-op" else if r.mode == .kf then "-" else "n/a"
 
